@@ -59,6 +59,7 @@ def run(repo: Repo, ctx) -> None:
     _run_main(repo, ctx)
     from .c09 import root_schema_rule
     root_schema_rule(repo, ctx, 'C17.R7')
+    _r8(repo, ctx)
 
 
 def _run_main(repo: Repo, ctx) -> None:
@@ -264,16 +265,30 @@ def _run_main(repo: Repo, ctx) -> None:
            f'__sync__ parameters {ps} differ from [dbname] + {COMPONENTS}',
            sync.loc, sample=ps)
     stored = {}
+    # (the unpickled value may travel through locals before it is stored:
+    # `x_unpacked = pickle.loads(x) ... GLOBAL = x_unpacked`)
+    from ..lints import _inline, _single_defs
+    sdefs = _single_defs(sync.node)
+    local_names = set(sdefs) - {nm for g_ in ast.walk(sync.node)
+                                if isinstance(g_, ast.Global) for nm in g_.names}
     for n in ast.walk(sync.node):
-        if isinstance(n, ast.Assign) and isinstance(n.value, ast.Call) \
-                and norm(n.value.func) == 'pickle.loads' and n.value.args:
-            src = norm(n.value.args[0])
-            tgt = n.targets[0]
-            if isinstance(tgt, ast.Subscript):
-                k = norm(tgt.slice)
-            else:
-                k = norm(tgt)
-            stored.setdefault(comp(src), set()).add(comp(k))
+        if not isinstance(n, ast.Assign):
+            continue
+        tgt = n.targets[0]
+        if isinstance(tgt, ast.Name) and tgt.id in local_names:
+            continue            # an intermediate local, not a store
+        if isinstance(tgt, ast.Name) and not tgt.id.isupper() and \
+                not tgt.id.endswith('_unpacked'):
+            continue            # a working value (db = DatabaseState(...))
+        val = n.value
+        for _ in range(3):
+            val = _inline_all(val, sdefs)
+        for c in ast.walk(val):
+            if isinstance(c, ast.Call) and norm(c.func) == 'pickle.loads' \
+                    and c.args and norm(c.args[0]) in ps:
+                k = norm(tgt.slice) if isinstance(tgt, ast.Subscript) \
+                    else norm(tgt)
+                stored.setdefault(comp(norm(c.args[0])), set()).add(comp(k))
     for c in COMPONENTS:
         tg = stored.get(c, set())
         ok = bool(tg) and tg == {c if c != 'system_config' else
@@ -472,6 +487,21 @@ def _run_main(repo: Repo, ctx) -> None:
                                sample='inside guarded try' if id(n) in inside
                                else 'invalidation drop (not a state '
                                     'transfer)')
+        # ... and so is every decoding of what was received: a failure to
+        # unpickle must reach the pool as FailedStateSync (the only reply
+        # after which it leaves its belief alone), not as a plain error of
+        # the request
+        loads = [c for c in ast.walk(sf.node) if isinstance(c, ast.Call)
+                 and norm(c.func) in ('pickle.loads', 'pickle.load')]
+        outside = sorted({c.lineno - sf.node.lineno for c in loads
+                          if id(c) not in inside})
+        ctx.ob('C17.R3', f'{sf.qualname[len(PKG)+1:]}:decoding-guarded',
+               bool(loads) and not outside,
+               f'{sf.qualname} unpickles received state outside the try '
+               f'that converts failures to FailedStateSync (offsets '
+               f'{outside}): the pool treats the failure as an ordinary '
+               f'compile error and records the update as delivered',
+               sf.loc, sample=f'{len(loads)} pickle.loads inside the try')
 
     # ---- R4 None discipline -----------------------------------------------
     ctx.floor('C17.R4', 6)
@@ -1031,3 +1061,158 @@ def _multitenant_sender(repo: Repo, ctx) -> None:
     ctx.ob('C17.R1', 'multitenant_worker.call_for_client:invoke', ok,
            'entry point is not invoked as meth(client_id, dbname, *args)',
            cfc.loc, sample='meth(client_id, dbname, *args)')
+
+
+def _r8(repo: Repo, ctx) -> None:
+    """C17.R8 two more send/believe couplings.
+
+    (a) compiler server (server.py): what `_call_for_client` records as held
+        by the worker (`set_client_schema(client_id, X)`) is the schema the
+        diff was computed from, and the diff is computed over *all* of it:
+        `X.diff(cache)` takes the cache only, and ClientSchema.diff visits
+        every database of `self.dbs` (no skipped iteration).  A diff narrowed
+        to one database while the whole schema is recorded leaves the other
+        databases stale on that worker without anyone knowing.
+    (b) RemotePool serialises state updates with a lock; the diff sent must
+        be computed *after* the lock was obtained, because the request that
+        held the lock has changed the belief in the meantime."""
+    ctx.floor('C17.R8', 3)
+    SRV = 'edb.server.compiler_pool.server'
+    cs = repo.cls(f'{SRV}.ClientSchema')
+    df = cs.methods.get('diff')
+    if df is None:
+        raise AnalysisError('C17.R8: ClientSchema.diff not found')
+    ctx.saw(df)
+    loops = [l for l in ast.walk(df.node) if isinstance(l, ast.For)
+             and norm(l.iter).startswith('self.dbs')]
+    if not loops:
+        raise AnalysisError('C17.R8: loop over self.dbs not found')
+    skips = [type(x).__name__.lower() for l in loops for x in ast.walk(l)
+             if isinstance(x, (ast.Continue, ast.Break))]
+    extra = [p for p in df.params()[2:]]
+    ctx.ob('C17.R8', 'ClientSchema.diff:every-database', not skips and
+           not extra,
+           f'ClientSchema.diff leaves databases out (skips: {skips}, extra '
+           f'parameters: {extra}) while the caller records the whole client '
+           f'schema as transferred: a database that changed while another '
+           f'worker served is never sent to this one, and its next query is '
+           f'compiled against the old schema', df.loc,
+           sample='for dbname, state in self.dbs.items(): compare')
+    cf = None
+    for f in repo.modules[SRV].functions.values():
+        pass
+    for qn, f in repo.functions.items():
+        if f.name == '_call_for_client' and f.module.name == SRV:
+            cf = f
+    if cf is None:
+        raise AnalysisError('C17.R8: _call_for_client not found')
+    ctx.saw(cf)
+    diffs = [c for c in ast.walk(cf.node) if isinstance(c, ast.Call)
+             and isinstance(c.func, ast.Attribute) and c.func.attr == 'diff']
+    recs = [c for c in ast.walk(cf.node) if isinstance(c, ast.Call)
+            and isinstance(c.func, ast.Attribute)
+            and c.func.attr == 'set_client_schema']
+    if not diffs or not recs:
+        raise AnalysisError('C17.R8: diff / set_client_schema calls not '
+                            'found in _call_for_client')
+    for c in diffs:
+        src = norm(c.func.value)
+        ok = len(c.args) == 1 and not c.keywords and all(
+            len(r.args) == 2 and norm(r.args[1]) == src for r in recs)
+        ctx.ob('C17.R8', '_call_for_client:diff-of-what-is-recorded', ok,
+               f'_call_for_client sends `{norm(c)[:60]}` but records '
+               f'{[norm(r.args[1]) for r in recs if len(r.args) == 2]} as '
+               f'held by the worker: the recorded belief covers more than '
+               f'was compared and sent', f'{cf.module.rel()}:{c.lineno}',
+               sample=f'{src}.diff(cache) / set_client_schema(.., {src})')
+    # (c) a sync is all-or-nothing: the pool keeps its old belief when the
+    # worker answers FailedStateSync, so the worker must not have stored any
+    # part of the new state by then.  In both workers every operation that
+    # can fail (unpickling, assertions) precedes the first store into the
+    # module-level state.
+    for wm in ('edb.server.compiler_pool.worker',
+               'edb.server.compiler_pool.multitenant_worker'):
+        sf = repo.modules[wm].functions.get('__sync__')
+        if sf is None:
+            raise AnalysisError(f'C17.R8: {wm}.__sync__ not found')
+        ctx.saw(sf)
+        globs = {nm for n in ast.walk(sf.node) if isinstance(n, ast.Global)
+                 for nm in n.names}
+        g = CFG(sf.node)
+        stores = [n.id for n in g.nodes if n.kind == 'stmt' and isinstance(
+            n.ast, (ast.Assign, ast.AugAssign)) and any(
+            isinstance(t, ast.Name) and t.id in globs for t in (
+                n.ast.targets if isinstance(n.ast, ast.Assign)
+                else [n.ast.target]))
+            # (evicting an invalidated tenant installs nothing: a later
+            # request for it fails loudly instead of using stale state)
+            and not (isinstance(n.ast.value, ast.Call) and isinstance(
+                n.ast.value.func, ast.Attribute) and
+                n.ast.value.func.attr == 'delete')]
+        if not stores:
+            raise AnalysisError(f'C17.R8: {wm}.__sync__ stores no state')
+
+        def risky(n):
+            if n.ast is None or n.kind not in ('stmt', 'test'):
+                return False
+            if isinstance(n.ast, ast.Assert):
+                return True
+            e = n.ast.test if n.kind == 'test' and hasattr(
+                n.ast, 'test') else n.ast
+            if isinstance(e, (ast.If, ast.For, ast.While, ast.With,
+                              ast.Try)):
+                return False
+            return any(isinstance(c, ast.Call) and norm(c.func) in (
+                'pickle.loads', 'pickle.load') for c in ast.walk(e))
+        late = sorted({g.nodes[i].lineno for st in stores
+                       for i in g.reachable([st])
+                       if i != st and risky(g.nodes[i])})
+        ctx.ob('C17.R8', f'{wm.rsplit(".", 1)[-1]}.__sync__:all-or-nothing',
+               not late,
+               f'{wm}.__sync__ can still fail (lines {late}) after it has '
+               f'stored part of the new state: the call then ends in '
+               f'FailedStateSync, the pool keeps its old belief, and the '
+               f'half-updated worker silently compiles later requests '
+               f'against components the caller did not supply',
+               sf.loc, sample='every pickle.loads precedes the first store')
+    # (b)
+    rp = repo.cls('edb.server.compiler_pool.pool.RemotePool')
+    pf = rp.methods.get('_compute_compile_preargs')
+    if pf is None:
+        raise AnalysisError('C17.R8: RemotePool._compute_compile_preargs '
+                            'not found')
+    ctx.saw(pf)
+    g = CFG(pf.node)
+    acq = [n.id for n in g.nodes if n.kind == 'stmt' and n.ast is not None
+           and any(isinstance(c, ast.Call) and norm(c.func).endswith(
+               '_sync_lock.acquire') for c in ast.walk(n.ast))]
+    calc = [n.id for n in g.nodes if n.kind == 'stmt' and n.ast is not None
+            and any(isinstance(c, ast.Call) and isinstance(
+                c.func, ast.Attribute) and c.func.attr ==
+                '_compute_compile_preargs' for c in ast.walk(n.ast))]
+    rets = [n.id for n in g.nodes if n.kind == 'stmt' and isinstance(
+        n.ast, ast.Return)]
+    if not acq or not calc or not rets:
+        raise AnalysisError('C17.R8: lock / diff / return of RemotePool.'
+                            '_compute_compile_preargs not found')
+    stale = g.reachable(acq, avoid=set(calc)) & set(rets)
+    ctx.ob('C17.R8', 'RemotePool._compute_compile_preargs:diff-after-lock',
+           not stale,
+           'RemotePool returns the diff it computed before waiting for the '
+           'sync lock: the request that held the lock has updated the '
+           'belief meanwhile, so a component this request supplies in an '
+           'older version is not sent and the worker compiles with the '
+           'other request\'s version', pf.loc,
+           sample='super()._compute_compile_preargs(*args) after acquire()')
+
+
+def _inline_all(e: ast.AST, defs) -> ast.AST:
+    """replace loads of single-assignment locals by their defining value"""
+    import copy
+
+    class T(ast.NodeTransformer):
+        def visit_Name(self, node):
+            if isinstance(node.ctx, ast.Load) and node.id in defs:
+                return copy.deepcopy(defs[node.id])
+            return node
+    return T().visit(copy.deepcopy(e))
